@@ -2,8 +2,9 @@
 (***************************************************************************)
 (* C08 - exclusion patterns protect exactly what they name.                *)
 (*                                                                         *)
-(* Names are strings over {x, y}; a pattern is a small regular-expression  *)
-(* AST (literal, any character, concatenation, alternation, star) whose    *)
+(* Names are strings over {x, y, X, Y}; a pattern is a small regular-      *)
+(* expression AST (literal, any character, concatenation, alternation,     *)
+(* star, case folding of one whole pattern) whose                          *)
 (* matching is defined here, recursively, on strings (TLC evaluates Len /  *)
 (* SubSeq on strings).  For a tree and a set of patterns:                  *)
 (*   MustSkip     entries with a path component that some pattern matches  *)
@@ -21,6 +22,11 @@ AnyChar == [t |-> "any"]
 Cat(a, b) == [t |-> "cat", l |-> a, r |-> b]
 Alt(a, b) == [t |-> "alt", l |-> a, r |-> b]
 Star(a) == [t |-> "star", r |-> a]
+Fold(a) == [t |-> "fold", r |-> a]     \* (?i)a at the start of a pattern: the whole of THIS pattern ignores case, no other pattern does
+
+LowerC(c) == IF c = "X" THEN "x" ELSE IF c = "Y" THEN "y" ELSE c
+RECURSIVE Lower(_)
+Lower(s) == IF s = "" THEN "" ELSE LowerC(SubSeq(s, 1, 1)) \o Lower(SubSeq(s, 2, Len(s)))
 
 RECURSIVE Full(_, _)
 Full(r, s) ==
@@ -28,6 +34,7 @@ Full(r, s) ==
       [] r.t = "any" -> Len(s) = 1
       [] r.t = "cat" -> \E k \in 0..Len(s) : Full(r.l, SubSeq(s, 1, k)) /\ Full(r.r, SubSeq(s, k + 1, Len(s)))
       [] r.t = "alt" -> Full(r.l, s) \/ Full(r.r, s)
+      [] r.t = "fold" -> Full(r.r, Lower(s))
       [] r.t = "star" -> s = "" \/ \E k \in 1..Len(s) : Full(r.r, SubSeq(s, 1, k)) /\ Full(r, SubSeq(s, k + 1, Len(s)))
 Contains(r, s) == \E i \in 1..(Len(s) + 1) : \E j \in (i - 1)..Len(s) : Full(r, SubSeq(s, i, j))
 
@@ -37,18 +44,23 @@ Src(r) == CASE r.t = "lit" -> r.c
             [] r.t = "cat" -> Src(r.l) \o Src(r.r)
             [] r.t = "alt" -> "(" \o Src(r.l) \o "|" \o Src(r.r) \o ")"
             [] r.t = "star" -> "(" \o Src(r.r) \o ")*"
+            [] r.t = "fold" -> "(?i)" \o Src(r.r)
 
 PatternPool == << Lit("x"), Lit("xy"), Lit("yy"), Cat(Lit("x"), AnyChar), Cat(AnyChar, Lit("y")), Cat(Lit("x"), Star(Lit("x"))),
-                  Alt(Lit("xx"), Lit("yx")), Cat(AnyChar, AnyChar), Cat(Lit("y"), Cat(Star(Lit("x")), Lit("y"))), Cat(Lit("x"), Cat(AnyChar, Lit("y"))) >>
+                  Alt(Lit("xx"), Lit("yx")), Cat(AnyChar, AnyChar), Cat(Lit("y"), Cat(Star(Lit("x")), Lit("y"))), Cat(Lit("x"), Cat(AnyChar, Lit("y"))),
+                  Fold(Lit("yy")) >>
 
 \* ---- trees ---------------------------------------------------------------------------------
 \* a node is <<path, kind>>; three fixed trees (rich, flat, deep) with names chosen so that patterns hit at every depth
 TreeRich == { <<<<"x">>, "dir">>, <<<<"x", "y">>, "file">>, <<<<"x", "xy">>, "dir">>, <<<<"x", "xy", "x">>, "file">>, <<<<"x", "xy", "yy">>, "file">>,
               <<<<"y">>, "dir">>, <<<<"y", "x">>, "file">>, <<<<"y", "yx">>, "dir">>, <<<<"y", "yx", "xx">>, "file">>, <<<<"y", "yxy">>, "file">>,
-              <<<<"xy">>, "file">>, <<<<"xx">>, "dir">>, <<<<"xx", "y">>, "dir">>, <<<<"xx", "y", "yy">>, "file">>, <<<<"yyy">>, "file">>, <<<<"yy">>, "dir">> }
-TreeFlat == { <<<<"x">>, "file">>, <<<<"y">>, "file">>, <<<<"xy">>, "file">>, <<<<"yx">>, "dir">>, <<<<"xx">>, "file">>, <<<<"yy">>, "file">>, <<<<"xyx">>, "file">>, <<<<"yxy">>, "dir">> }
+              <<<<"xy">>, "file">>, <<<<"xx">>, "dir">>, <<<<"xx", "y">>, "dir">>, <<<<"xx", "y", "yy">>, "file">>, <<<<"yyy">>, "file">>, <<<<"yy">>, "dir">>,
+              <<<<"X">>, "file">>, <<<<"x", "XY">>, "file">>, <<<<"Yy">>, "dir">>, <<<<"Yy", "x">>, "file">> }
+TreeFlat == { <<<<"x">>, "file">>, <<<<"y">>, "file">>, <<<<"xy">>, "file">>, <<<<"yx">>, "dir">>, <<<<"xx">>, "file">>, <<<<"yy">>, "file">>, <<<<"xyx">>, "file">>, <<<<"yxy">>, "dir">>,
+             <<<<"X">>, "file">>, <<<<"YY">>, "file">>, <<<<"Xy">>, "dir">> }
 TreeDeep == { <<<<"y">>, "dir">>, <<<<"y", "y">>, "dir">>, <<<<"y", "y", "x">>, "dir">>, <<<<"y", "y", "x", "y">>, "file">>, <<<<"y", "y", "yy">>, "file">>,
-              <<<<"y", "xy">>, "file">>, <<<<"yx">>, "dir">>, <<<<"yx", "yx">>, "dir">>, <<<<"yx", "yx", "yx">>, "file">> }
+              <<<<"y", "xy">>, "file">>, <<<<"yx">>, "dir">>, <<<<"yx", "yx">>, "dir">>, <<<<"yx", "yx", "yx">>, "file">>,
+             <<<<"y", "Y">>, "file">>, <<<<"YX">>, "dir">>, <<<<"YX", "yY">>, "file">> }
 Trees == [rich |-> TreeRich, flat |-> TreeFlat, deep |-> TreeDeep]
 
 Ops == {"Walk", "Ls", "LsRecursive", "ListDirTree", "SubDirectories", "Copy", "Zip", "Remove", "CleanDir"}
@@ -81,7 +93,11 @@ MustProcessAll == {p \in Paths : InScope(p) /\ ~ComponentContainsMatch(p)}
 HoldsProtected(p) == \E q \in Paths : q # p /\ IsPrefix(p, q) /\ ComponentContainsMatch(q)
 MustProcess == IF op \in {"Remove", "CleanDir"} THEN {p \in MustProcessAll : ~HoldsProtected(p)} ELSE MustProcessAll
 
+\* sets of pattern sources with a member that is not a regular expression - some of them would be one if the members were
+\* glued together (an unclosed group / class closed by the next member): every member must be valid on its own
+InvalidSets == { {"x(y"}, {"x(", ")y"}, {"[x", "y]"}, {"*x"}, {"x{2,1}"}, {"(?i", ")x"} }
+
 SkipAndProcessDisjoint == MustSkip \cap MustProcess = {}
-Scenario == [tree |-> tree, nodes |-> Nodes, patterns |-> {Src(P(i)) : i \in pats}, op |-> op, mustSkip |-> MustSkip, mustProcess |-> MustProcess]
+Scenario == [tree |-> tree, nodes |-> Nodes, patterns |-> {Src(P(i)) : i \in pats}, op |-> op, mustSkip |-> MustSkip, mustProcess |-> MustProcess, invalidSets |-> InvalidSets]
 Emit == PrintT(<<"BEHAVIOUR", ToJson(Scenario)>>)
 =============================================================================
